@@ -27,9 +27,20 @@ def r15_3_formula(ctx, prog):
     sub["rto"] = ("Duration::add", sub["srtt"], ("cmp::max", G, ("Duration::mul_f32", sub["rttvar"], 4.0)))
     branches = 0
     for pa in paths:
-        eqc = pa.calls_to(r"Duration as std::cmp::PartialEq>::eq$")
-        ok_test = bool(eqc) and "rtt.srtt" in repr(eqc[0][2]) and "default@" in repr(eqc[0][2])
-        is_first = pa.choice(r"^ret:eq@")
+        # the first-sample test: srtt == <zero duration> (either order, `==` / `!=`, any spelling of zero) or srtt.is_zero()
+        from .codec_rules import _is_zero_duration
+        eqc = pa.calls_to(r"Duration as std::cmp::PartialEq>::(eq|ne)$") + pa.calls_to(r"Duration::is_zero$")
+        ok_test = False
+        is_first = None
+        if eqc:
+            a = C.expr_of(pa, eqc[0][2])
+            v = pa.choice(r"%s$" % re.escape(eqc[0][4].split("@")[-1]))
+            if eqc[0][1].endswith("is_zero"):
+                ok_test = a[0] == "top:rtt.srtt"
+                is_first = v
+            else:
+                ok_test = (a[0] == "top:rtt.srtt" and _is_zero_duration(a[1])) or (a[1] == "top:rtt.srtt" and _is_zero_duration(a[0]))
+                is_first = v if eqc[0][1].endswith("::eq") else (None if v is None else 1 - v)
         if is_first is None:
             ctx.violation("R15.3", "branch-test", "update does not branch on srtt == Duration::default()", info["where"],
                           replay=pa.describe())
@@ -55,13 +66,20 @@ def r15_3_formula(ctx, prog):
                "fields written: %s" % order, info["where"])
     ctx.floor("R15.3", "update branches", branches, 2)
     # reset and rto()
-    paths, info = C.explore_fn(prog, "stun_agent::rtt::RttCalcuator::reset", "rtt", [])
+    paths, info = C.explore_fn(prog, "stun_agent::rtt::RttCalcuator::reset", "rtt", [r"RttCalcuator::new$"])
     ctx.fn(info["body"])
+    from .codec_rules import _is_zero_duration
     for pa in paths:
         final = {w[2][0]: C.expr_of(pa, w[3]) for w in pa.writes if w[1] == "rtt" and len(w[2]) == 1}
-        ctx.ob("R15.3", "reset", final.get("rto") == "top:rtt.configured_rto" and "default" in repr(final.get("srtt"))
-               and "default" in repr(final.get("rttvar")), "reset writes %s" % {k: show(v) for k, v in final.items()},
-               info["where"])
+        for w in pa.writes:
+            # `*self = Self::new(self.configured_rto, self.granularity)`: a whole-value write of a struct literal
+            v = C.expr_of(pa, w[3]) if w[1] == "rtt" and len(w[2]) == 0 else None
+            if isinstance(v, tuple) and v and v[0] == "RttCalcuator" and len(v) == len(names) + 1:
+                final.update({n_: v[1 + i_] for i_, n_ in enumerate(names)})
+        ok = final.get("rto") == "top:rtt.configured_rto" and _is_zero_duration(final.get("srtt")) and _is_zero_duration(final.get("rttvar")) \
+            and final.get("granularity", "top:rtt.granularity") == "top:rtt.granularity" \
+            and final.get("configured_rto", "top:rtt.configured_rto") == "top:rtt.configured_rto"
+        ctx.ob("R15.3", "reset", ok, "reset writes %s" % {k: show(v) for k, v in final.items()}, info["where"])
     r15_3_config_path(ctx, prog)
 
 
